@@ -128,6 +128,24 @@ Definition run_sign_recover (kb : bytes) (c : bool) (msg : bytes) (h : signing_h
           else "OK:0;*~OK:E"
         else "ERR") "-".
 
+(* every way a signature is produced (Exec_C05.produce) through recovery in every form:
+   route mem (the signer's object) | cmp (to_compact_bytes(None), from_compact_bytes);
+   entry m (recover_public_key(msg, hash)) | d (recover_public_key_from_digest(digest of msg)).
+   Specification: exactly the signer's public key in the signer's compression form. *)
+Definition run_sig_cross (signer : string) (kb : bytes) (c : bool) (msg : bytes) (h : signing_hash) (rk : bool) (aux : bytes)
+           (route entry : string) : string :=
+  out3 (render (do p <- produce signer kb c msg h rk aux;
+                let '(k, sg, hs) := p in
+                do obj <- (if String.eqb route "mem" then Ok sg else from_compact_impl (to_compact_bytes sg None));
+                let own := pk_point (to_public_key FP k) in
+                match (if String.eqb entry "m" then get_public_key FP obj msg hs
+                       else get_public_key_from_digest FP obj (digest_bytes hs msg)) with
+                | Ok q => Ok (bit (bytes_eqb (pk_point q) own) +++ ";" +++ show_bytes (pk_point q))
+                | Err => Ok "E"
+                | Panic => Panic
+                end))
+       (if produce_valid signer kb aux then "OK:1;" +++ show_bytes (sec1_encode c (pubkey_fast (be_Z kb))) else "ERR") "-".
+
 (* "n" -> None, "<recid><c>" -> Some info *)
 Definition info_of (s : string) : option (option recinfo) :=
   match s with
@@ -241,6 +259,13 @@ Definition run (op : string) (args : list string) : string :=
   | "sig.sign_recover_digest", [k; c; m; h; rk; d] =>
       match expand k, flag_of c, expand m, hash_of h, flag_of rk, expand d with
       | Some kb, Some cb, Some mb, Some hh, Some rkb, Some db => run_sign_recover_digest kb cb mb hh rkb db
+      | _, _, _, _, _, _ => "BADARG"
+      end
+  | "sig.cross", [sn; k; c; m; h; rk; aux; route; entry] =>
+      match expand k, flag_of c, expand m, hash_of h, flag_of rk, expand aux with
+      | Some kb, Some cb, Some mb, Some hh, Some rkb, Some ab =>
+          if is_signer sn && (String.eqb route "mem" || String.eqb route "cmp") && (String.eqb entry "m" || String.eqb entry "d")
+          then run_sig_cross sn kb cb mb hh rkb ab route entry else "BADARG"
       | _, _, _, _, _, _ => "BADARG"
       end
   | "sig.compact_der", [d; i] =>
